@@ -88,24 +88,38 @@ def _eval(e, env, atom_of, asg):
                 return len(v)
         if f == "bool" and len(e.args) == 1:
             return bool(_eval(e.args[0], env, atom_of, asg))
+        if f in ("tuple", "list") and len(e.args) <= 1:
+            if not e.args:
+                return []
+            v = _eval(e.args[0], env, atom_of, asg)
+            if isinstance(v, list):
+                return list(v)
         if f in ("all", "any") and len(e.args) == 1:
-            a = e.args[0]
-            if isinstance(a, (ast.GeneratorExp, ast.ListComp)) and len(a.generators) == 1 and isinstance(a.generators[0].target, ast.Name):
-                g = a.generators[0]
-                seq = _eval(g.iter, env, atom_of, asg)
-                if isinstance(seq, list):
-                    outs = []
-                    for item in seq:
-                        env2 = dict(env)
-                        env2[g.target.id] = item
-                        if all(_eval(c, env2, atom_of, asg) for c in g.ifs):
-                            outs.append(bool(_eval(a.elt, env2, atom_of, asg)))
-                    return all(outs) if f == "all" else any(outs)
-            else:
-                seq = _eval(a, env, atom_of, asg)
-                if isinstance(seq, list) and all(isinstance(x, (bool, int)) for x in seq):
-                    return all(seq) if f == "all" else any(seq)
+            seq = _eval(e.args[0], env, atom_of, asg)
+            if isinstance(seq, list) and all(isinstance(x, (bool, int)) for x in seq):
+                return all(seq) if f == "all" else any(seq)
+    if isinstance(e, (ast.GeneratorExp, ast.ListComp)) and len(e.generators) == 1:
+        g = e.generators[0]
+        seq = _eval(g.iter, env, atom_of, asg)
+        if isinstance(seq, list):
+            outs = []
+            for item in seq:
+                env2 = dict(env)
+                _bind(g.target, item, env2)
+                if all(_eval(c, env2, atom_of, asg) for c in g.ifs):
+                    outs.append(_value(e.elt, env2, atom_of, asg))
+            return outs
     raise Unknown(ast.unparse(e))
+
+
+def _bind(target, item, env):
+    if isinstance(target, ast.Name):
+        env[target.id] = item
+    elif isinstance(target, (ast.Tuple, ast.List)) and isinstance(item, list) and len(item) == len(target.elts):
+        for t, x in zip(target.elts, item):
+            _bind(t, x, env)
+    else:
+        raise Unknown("binding of %s" % ast.unparse(target))
 
 
 class _Return(Exception):
@@ -142,11 +156,11 @@ def _run(body, env, atom_of, asg):
                 and isinstance(st.value.func.value, ast.Name) and isinstance(env.get(st.value.func.value.id), list) and len(st.value.args) == 1:
             env[st.value.func.value.id].append(_value(st.value.args[0], env, atom_of, asg))
             continue
-        if isinstance(st, ast.For) and isinstance(st.target, ast.Name) and not st.orelse:
+        if isinstance(st, ast.For) and not st.orelse:
             seq = _eval(st.iter, env, atom_of, asg)
             if isinstance(seq, list):
                 for item in list(seq):
-                    env[st.target.id] = item
+                    _bind(st.target, item, env)
                     _run(st.body, env, atom_of, asg)
                 continue
         if isinstance(st, ast.Pass):
